@@ -58,7 +58,7 @@ func coqWBuffer(b *commit.Buffer) string {
 // real readers, against coq/WireState.v (state_enc / state_dec / restore_bytes)
 func stateCases(seed uint64, n int, out string) (shards []string, cases, total int, failures, samples []string) {
 	stats := newStats()
-	var cs []string
+	var cs, s2cs []string
 	for i := 0; i < n; i++ {
 		w := newWorld(seed+7777, i, persistProfile, stats, false)
 		for t := 0; t < 2+w.rng.Intn(5); t++ {
@@ -141,6 +141,13 @@ func stateCases(seed uint64, n int, out string) (shards []string, cases, total i
 		total += tot
 		txt := fmt.Sprintf("((%d, [%s]), [%s], %s, %s, [%s])", cols, strings.Join(chunks, "; "), strings.Join(commits, "; "), coqBytes(sbytes), coqBytes(lbytes), strings.Join(cuts, "; "))
 		cs = append(cs, txt)
+		if len(file) <= 4000 {
+			if c := s2Case(w.rng, file, append(append([]byte(nil), sbytes...), lbytes...)); c != "" {
+				s2cs = append(s2cs, c)
+			} else {
+				failures = append(failures, fmt.Sprintf("state case %d: the snapshot file is not a sequence of s2 chunks the harness can parse", i))
+			}
+		}
 		if len(samples) < 1 {
 			samples = append(samples, fmt.Sprintf("snapshot %d: %d buffers per block, %d blocks, %d recorded commits, state %d bytes, log %d bytes", i, cols, nchunks, len(commits), len(sbytes), len(lbytes)))
 		}
@@ -157,7 +164,69 @@ func stateCases(seed uint64, n int, out string) (shards []string, cases, total i
 		os.WriteFile(name, []byte(txt), 0o644)
 		shards = append(shards, name)
 	}
+	for i := 0; i < len(s2cs); i += per {
+		j := i + per
+		if j > len(s2cs) {
+			j = len(s2cs)
+		}
+		name := filepath.Join(out, fmt.Sprintf("s2_%05d.v", i))
+		txt := "From Coq Require Import NArith List.\nFrom ColumnV Require Import Wire WireCommit WireState S2Frame.\nImport ListNotations.\nLocal Open Scope N_scope.\n" +
+			fmt.Sprintf("Definition M := Eval vm_compute in s2_mismatches %d [\n %s].\nPrint M.\n", 300000+i, strings.Join(s2cs[i:j], ";\n "))
+		os.WriteFile(name, []byte(txt), 0o644)
+		shards = append(shards, name)
+	}
 	return shards, len(cs), total, failures, samples
+}
+
+// s2Case: a real snapshot file as a sequence of s2 chunks (type, body, what the real reader delivers for
+// the chunk alone) and the real reader's result on prefixes (bytes delivered, 0 = clean end / 1 = error)
+func s2Case(rng *Rng, file, full []byte) string {
+	magic := []byte("\xff\x06\x00\x00S2sTwO")
+	var table []string
+	var bounds []int
+	for pos := 0; pos < len(file); {
+		if pos+4 > len(file) {
+			return ""
+		}
+		l := int(file[pos+1]) | int(file[pos+2])<<8 | int(file[pos+3])<<16
+		if pos+4+l > len(file) {
+			return ""
+		}
+		ty, body := file[pos], file[pos+4:pos+4+l]
+		var pl []byte
+		if ty == 0 || ty == 1 {
+			one := append(append([]byte(nil), magic...), file[pos:pos+4+l]...)
+			var err error
+			if pl, err = io.ReadAll(s2.NewReader(bytes.NewReader(one))); err != nil {
+				return ""
+			}
+		}
+		table = append(table, fmt.Sprintf("(%d, %s, %s)", ty, coqBytes(body), coqBytes(pl)))
+		pos += 4 + l
+		bounds = append(bounds, pos)
+	}
+	ks := []int{0, 1, 2, 3, 4, 5, 9, 10, 11, 12, 13, 14, len(file) - 1, len(file), rng.Intn(len(file) + 1), rng.Intn(len(file) + 1), rng.Intn(len(file) + 1)}
+	for _, b := range bounds {
+		ks = append(ks, b-1, b, b+1, b+3, b+4, b+5)
+	}
+	var cuts []string
+	seen := map[int]bool{}
+	for _, k := range ks {
+		if k < 0 || k > len(file) || seen[k] {
+			continue
+		}
+		seen[k] = true
+		got, err := io.ReadAll(s2.NewReader(bytes.NewReader(file[:k])))
+		st := 0
+		if err != nil {
+			st = 1
+		}
+		if !bytes.Equal(got, full[:len(got)]) {
+			return ""
+		}
+		cuts = append(cuts, fmt.Sprintf("(%d%%nat, (%d%%nat, %d))", k, len(got), st))
+	}
+	return fmt.Sprintf("(%s, [%s], %s, [%s])", coqBytes(file), strings.Join(table, "; "), coqBytes(full), strings.Join(cuts, "; "))
 }
 
 func cmdWire(args []string) {
